@@ -30,6 +30,9 @@ typedef struct LogEntry_PageTable PT_t;
 char *g_pb, *g_pp, *g_ep;
 void std_basic_streambuf_L_char_R_setp(struct std_basic_streambuf_L_char_R *s, char *b, char *e) { g_pb = b; g_pp = b; g_ep = e; }
 char *std_basic_streambuf_L_char_R_pptr(struct std_basic_streambuf_L_char_R *s) { return g_pp; }
+char *std_basic_streambuf_L_char_R_pbase(struct std_basic_streambuf_L_char_R *s) { return g_pb; }
+char *std_basic_streambuf_L_char_R_epptr(struct std_basic_streambuf_L_char_R *s) { return g_ep; }
+void std_basic_streambuf_L_char_R_pbump(struct std_basic_streambuf_L_char_R *s, int n) { g_pp += n; }
 int std_basic_streambuf_L_char_R_sputc(struct std_basic_streambuf_L_char_R *s, char c) {
   __CPROVER_assert(g_pp != 0 && g_pp < g_ep, "K5 C20.overflow leaves room in the put area for the character it must store");
   *g_pp = c; g_pp++;
@@ -90,12 +93,12 @@ __CPROVER_ensures((g_w < __CPROVER_old(g_cnt) || g_w >= g_cnt) ==> g_w_seen == _
 ;
 size_t g_cnt0, g_bytes0, g_size0;
 //@loop LogEntry_pages_append_to_iovec 1
-//@  __CPROVER_assigns(@l2@, @p2@, g_cnt, g_bytes, g_w_base, g_w_len, g_w_seen, g_last)
-//@  __CPROVER_loop_invariant(@l2@ <= @l1@ && @l1@ == __CPROVER_loop_entry(@p2@) / VF_PS && @p2@ == __CPROVER_loop_entry(@p2@) - @l2@ * VF_PS)
-//@  __CPROVER_loop_invariant(g_cnt == __CPROVER_loop_entry(g_cnt) + @l2@ && g_bytes == __CPROVER_loop_entry(g_bytes) + @l2@ * VF_PS)
+//@  __CPROVER_assigns(@l2:i@, @p2:size@, g_cnt, g_bytes, g_w_base, g_w_len, g_w_seen, g_last)
+//@  __CPROVER_loop_invariant(@l2:i@ <= @l1:num@ && @l1:num@ == __CPROVER_loop_entry(@p2:size@) / VF_PS && @p2:size@ == __CPROVER_loop_entry(@p2:size@) - @l2:i@ * VF_PS)
+//@  __CPROVER_loop_invariant(g_cnt == __CPROVER_loop_entry(g_cnt) + @l2:i@ && g_bytes == __CPROVER_loop_entry(g_bytes) + @l2:i@ * VF_PS)
 //@  __CPROVER_loop_invariant((g_w >= __CPROVER_loop_entry(g_cnt) && g_w < g_cnt) ==> (g_w_seen && g_w_base == (void *)g_parr[g_w - __CPROVER_loop_entry(g_cnt)] && g_w_len == VF_PS))
 //@  __CPROVER_loop_invariant((g_w < __CPROVER_loop_entry(g_cnt) || g_w >= g_cnt) ==> g_w_seen == __CPROVER_loop_entry(g_w_seen))
-//@  __CPROVER_decreases(@l1@ - @l2@)
+//@  __CPROVER_decreases(@l1:num@ - @l2:i@)
 //@end
 
 /* ================= writer ================= */
